@@ -89,6 +89,7 @@ def run(d, tier="quick", props=None, inplace=False):
         make_tree(tree)
         rc, out = sh(["git", "apply", os.path.join(d, "patch.diff")], cwd=tree)
         env["VERIF_REPO"] = tree
+        env["VERIF_EVIDENCE_DIR"] = os.path.join(d, "evidence-on-mutant")   # never overwrite /verif/evidence with a mutant's run
     if rc != 0:
         if tree: drop_tree(tree)
         return {"applied": False, "output": out[-1500:]}
